@@ -284,6 +284,39 @@ func qualifiedName(x ast.Expr) string {
 	}
 }
 
+// resolvedName is like qualifiedName, but reports what x really refers to:
+// "append" only for the builtin function and "<import path>.f" only for
+// a function of an imported package (whatever its local name is).
+// User-defined functions, methods, variables or packages that merely share
+// the spelling yield "". Without type information for x it falls back to
+// qualifiedName.
+func resolvedName(ctx *linter.CheckerContext, x ast.Expr) string {
+	switch x := x.(type) {
+	case *ast.SelectorExpr:
+		pkg, ok := x.X.(*ast.Ident)
+		if !ok {
+			return ""
+		}
+		switch obj := ctx.TypesInfo.ObjectOf(pkg).(type) {
+		case nil:
+			return pkg.Name + "." + x.Sel.Name
+		case *types.PkgName:
+			return obj.Imported().Path() + "." + x.Sel.Name
+		default:
+			return ""
+		}
+	case *ast.Ident:
+		switch ctx.TypesInfo.ObjectOf(x).(type) {
+		case nil, *types.Builtin:
+			return x.Name
+		default:
+			return ""
+		}
+	default:
+		return ""
+	}
+}
+
 // identOf returns identifier for x that can be used to obtain associated types.Object.
 // Returns nil for expressions that yield temporary results, like `f().field`.
 func identOf(x ast.Node) *ast.Ident {
